@@ -115,8 +115,6 @@ func (d *Do) appendParameterBeforeTypeCalculate(
 			return blockParamaters
 		}
 
-		tmpParameters := [20]*base.T{}
-
 		if len(lastEvaluatedT.UnifyVariants().GetVariants()) == 0 {
 			blockParamaters =
 				append(blockParamaters, *lastEvaluatedT.UnifyVariants())
@@ -129,6 +127,18 @@ func (d *Do) appendParameterBeforeTypeCalculate(
 		if lastEvaluatedT.IsArrayType() {
 			targetRangeT = lastEvaluatedT.GetVariants()
 		}
+
+		// one slot per element position: of the receiver and of its widest
+		// element array
+		slots := len(targetRangeT) + 1
+
+		for _, variant := range targetRangeT {
+			if len(variant.GetVariants()) >= slots {
+				slots = len(variant.GetVariants()) + 1
+			}
+		}
+
+		tmpParameters := make([]*base.T, slots)
 
 		for idx, variant := range targetRangeT {
 			switch variant.GetType() {
